@@ -31,6 +31,12 @@ def run(rep, tier, kinds, prop, stackkw=None):
             for v in range(4):
                 n += 1
                 traces.append(CL.replay_history(kind, h, n + v, **(stackkw or {})))
+    if "hash" in kinds:
+        for h in CL.spread_histories():
+            for kind in ("hash3", "client"):
+                for v in range(2):
+                    n += 1
+                    traces.append(CL.replay_history(kind, h, n + v, **(stackkw or {})))
     for h in hs:
         n += 1
         if tier == "quick" and n % 3:
